@@ -70,6 +70,12 @@ def main(argv=None) -> int:
                     rep.errors.append(f"SELFTEST behaviour-preserving refactoring {r['refactor']} raises an alarm: {r['first']}")
                 elif r["got"] == "patch-does-not-apply":
                     rep.note(f"refactoring {r['refactor']} no longer applies (source changed)")
+            from .selftest.run import hidden_runs
+            hr = hidden_runs(pid, project.repo)
+            rep.extra["hidden_slips"] = hr
+            for r in hr:
+                if not r["ok"]:
+                    rep.errors.append(f"SELFTEST hidden-slip corpus {r['hidden']} ({r['which']}.diff): checker gave {r['got']}")
             res = sensitivity(pid, project.repo)
             rep.extra["sensitivity"] = res
             rep.extra["sensitivity_summary"] = {
